@@ -1,0 +1,158 @@
+//! Verification hooks. Compiled only with cargo feature `verif-hooks`
+//! (off by default). Nothing here changes behaviour unless a harness
+//! arms it: poison seed defaults to 0 (= off), feature mask to "all".
+//!
+//! All state is thread-local (so that parallel harness workers do not
+//! disturb each other) except the table-initialization event log,
+//! which is a global lock-free slot array.
+
+use std::cell::Cell;
+use std::sync::atomic::{AtomicU64, AtomicUsize, Ordering};
+
+// ======================================================================
+// H1 - POISON: adversarial stale contents of the working memory
+
+thread_local! {
+    static POISON_STATE: Cell<u64> = const { Cell::new(0) };
+    static POISON_FILLS: Cell<u64> = const { Cell::new(0) };
+}
+
+/// Arms (`seed != 0`) or disarms (`seed == 0`) poisoning on this thread.
+pub fn set_poison(seed: u64) {
+    POISON_STATE.with(|s| s.set(seed));
+}
+
+/// Number of poison fills done on this thread so far.
+pub fn poison_fills() -> u64 {
+    POISON_FILLS.with(Cell::get)
+}
+
+/// Called by `Shards::resize` after the buffer got its new size.
+pub fn poison(data: &mut [[u8; 64]]) {
+    let mut state = POISON_STATE.with(Cell::get);
+    if state == 0 {
+        return;
+    }
+    for chunk in data.iter_mut() {
+        for word in chunk.chunks_exact_mut(8) {
+            // xorshift64
+            state ^= state << 13;
+            state ^= state >> 7;
+            state ^= state << 17;
+            word.copy_from_slice(&state.to_le_bytes());
+        }
+    }
+    POISON_STATE.with(|s| s.set(state));
+    POISON_FILLS.with(|c| c.set(c.get() + 1));
+}
+
+// ======================================================================
+// H2 - FEATURE MASK + ISA TRACE
+
+pub const ISA_AVX2: usize = 0;
+pub const ISA_SSSE3: usize = 1;
+pub const ISA_NEON: usize = 2;
+
+pub const PRIM_FFT: usize = 0;
+pub const PRIM_IFFT: usize = 1;
+pub const PRIM_MUL: usize = 2;
+pub const PRIM_EVAL_POLY: usize = 3;
+
+thread_local! {
+    // bit `ISA_*` set = runtime detection of that feature may report true
+    static FEATURE_MASK: Cell<usize> = const { Cell::new(usize::MAX) };
+    static ISA_COUNTERS: Cell<[[u64; 4]; 3]> = const { Cell::new([[0; 4]; 3]) };
+    static DETECT_QUERIES: Cell<u64> = const { Cell::new(0) };
+}
+
+/// Restricts what runtime feature detection in `engine_default.rs`
+/// reports on this thread (bit `ISA_*`; `usize::MAX` = unrestricted).
+pub fn set_feature_mask(mask: usize) {
+    FEATURE_MASK.with(|m| m.set(mask));
+}
+
+/// Used by the shadowing `is_x86_feature_detected!` in `engine_default.rs`.
+pub fn feature_allowed(name: &str) -> bool {
+    DETECT_QUERIES.with(|c| c.set(c.get() + 1));
+    let bit = match name {
+        "avx2" => ISA_AVX2,
+        "ssse3" => ISA_SSSE3,
+        "neon" => ISA_NEON,
+        _ => return true,
+    };
+    FEATURE_MASK.with(Cell::get) & (1 << bit) != 0
+}
+
+/// Number of masked feature-detection queries on this thread so far.
+pub fn detect_queries() -> u64 {
+    DETECT_QUERIES.with(Cell::get)
+}
+
+/// Called at the top of every `#[target_feature]` entry point.
+#[inline(always)]
+pub fn isa_hit(isa: usize, prim: usize) {
+    ISA_COUNTERS.with(|c| {
+        let mut v = c.get();
+        v[isa][prim] += 1;
+        c.set(v);
+    });
+}
+
+/// Snapshot of this thread's `[isa][primitive]` call counters.
+pub fn isa_counters() -> [[u64; 4]; 3] {
+    ISA_COUNTERS.with(Cell::get)
+}
+
+// ======================================================================
+// H3 - TABLE INITIALIZATION EVENTS
+
+pub const TABLE_EXP_LOG: u64 = 0;
+pub const TABLE_LOG_WALSH: u64 = 1;
+pub const TABLE_MUL16: u64 = 2;
+pub const TABLE_MUL128: u64 = 3;
+pub const TABLE_SKEW: u64 = 4;
+
+pub const EVENT_INIT_BEGIN: u64 = 0;
+pub const EVENT_INIT_END: u64 = 1;
+/// Recorded by the harness itself after a table deref returned.
+pub const EVENT_USE: u64 = 2;
+
+const EVENT_SLOTS: usize = 4096;
+
+static EVENT_NEXT: AtomicUsize = AtomicUsize::new(0);
+static EVENTS: [AtomicU64; EVENT_SLOTS] = [const { AtomicU64::new(0) }; EVENT_SLOTS];
+static THREAD_NEXT: AtomicU64 = AtomicU64::new(1);
+
+thread_local! {
+    static THREAD_ID: Cell<u64> = const { Cell::new(0) };
+}
+
+fn thread_id() -> u64 {
+    THREAD_ID.with(|t| {
+        if t.get() == 0 {
+            t.set(THREAD_NEXT.fetch_add(1, Ordering::Relaxed));
+        }
+        t.get()
+    })
+}
+
+/// Appends `(table, kind, calling thread)` to the global event log.
+/// The slot index is the event's sequence number.
+pub fn table_event(table: u64, kind: u64) {
+    let slot = EVENT_NEXT.fetch_add(1, Ordering::SeqCst);
+    if slot < EVENT_SLOTS {
+        // bit 63 marks the slot as written
+        let word = (1 << 63) | (thread_id() << 16) | (table << 8) | kind;
+        EVENTS[slot].store(word, Ordering::SeqCst);
+    }
+}
+
+/// Returns the event log so far as `(table, kind, thread)` in sequence order.
+pub fn table_events() -> Vec<(u64, u64, u64)> {
+    let n = EVENT_NEXT.load(Ordering::SeqCst).min(EVENT_SLOTS);
+    (0..n)
+        .map(|i| EVENTS[i].load(Ordering::SeqCst))
+        .filter(|w| w >> 63 == 1)
+        .map(|w| ((w >> 8) & 0xff, w & 0xff, (w >> 16) & 0xffff_ffff))
+        .collect()
+}
